@@ -15,6 +15,8 @@
      ApplyNotDurable  an entry is applied only when it is in the node's durable log
      Panic            no raft panic / log.Fatal
      NoConverge       all live replicas hold the same contents once faults stop
+     SnapshotConfStale the membership recorded in a node's local snapshot (and found in its store at
+                      restart) is the group's membership at the snapshot's index (RaftConf!SnapConfExact)
    and for C03 (the applied events carry the decoded change)
      AckedLost        an acknowledged write is in the applied log
      NeverSubmitted   every applied change was submitted by the client
@@ -61,6 +63,17 @@ Fold(s, A, i) == IF i \notin DOMAIN A THEN (IF \E j \in DOMAIN A : j > i THEN Fo
 Contents(items) == [i \in {items[j][1] : j \in 1..Len(items)} |->
                       LET j == CHOOSE j \in 1..Len(items) : items[j][1] = i IN items[j][2]]
 
+\* membership of the group after the entries up to index hi (bootstrap and joins / leaves are conf entries)
+RECURSIVE Mem(_, _, _)
+Mem(S, i, hi) ==
+  IF i > hi THEN S
+  ELSE LET c == IF i \in DOMAIN appliedAt THEN appliedAt[i][3] ELSE <<"none", 0, 0>>
+       IN Mem(IF c[1] # "conf" \/ c[2] = 0 THEN S ELSE IF c[3] = 1 THEN S \cup {c[2]} ELSE S \ {c[2]}, i + 1, hi)
+SnapConfViol(t) ==
+  IF t.snapidx > 0 /\ (\A i \in 1..t.snapidx : i \in DOMAIN appliedAt)
+     /\ {t.snapnodes[j] : j \in 1..Len(t.snapnodes)} # Mem({}, 1, t.snapidx)
+  THEN {<<l, "SnapshotConfStale">>} ELSE {}
+
 Step ==
   /\ l <= Len(Trace) /\ l' = l + 1
   /\ LET t == Trace[l] IN
@@ -69,6 +82,7 @@ Step ==
                 had == t.hsterm > 0 \/ t.last > 0 \/ t.snapidx > 0
             IN /\ viol' = viol \cup (IF had /\ t.mode = "start" THEN {<<l, "Rebootstrap">>} ELSE {})
                                \cup (IF t.hsterm < dTerm[n] \/ t.last < dLast[n] THEN {<<l, "ResumeOlder">>} ELSE {})
+                               \cup SnapConfViol(t)
                /\ lastApplied' = [lastApplied EXCEPT ![n] = t.snapidx]
                /\ UNCHANGED <<dTerm, dVote, dLast, dLog, appliedAt, submitted, acked>>
        [] t.ev = "saved" ->
@@ -80,6 +94,9 @@ Step ==
             /\ UNCHANGED <<lastApplied, appliedAt, submitted, acked, viol>>
        [] t.ev = "send" ->
             /\ viol' = viol \cup (IF Attested(t.node, t) THEN {} ELSE {<<l, "Unattested">>})
+            /\ UNCHANGED <<dTerm, dVote, dLast, dLog, lastApplied, appliedAt, submitted, acked>>
+       [] t.ev = "snapshot" ->
+            /\ viol' = viol \cup (IF t.err = "" THEN SnapConfViol(t) ELSE {})
             /\ UNCHANGED <<dTerm, dVote, dLast, dLog, lastApplied, appliedAt, submitted, acked>>
        [] t.ev = "snapinstalled" ->
             /\ lastApplied' = [lastApplied EXCEPT ![t.node] = IF t.idx > @ THEN t.idx ELSE @]
